@@ -22,6 +22,7 @@ import (
 
 func init() {
 	zzverif.Register("VerifC12Seq", VerifC12Seq)
+	zzverif.Register("VerifC12Seq1", VerifC12Seq1)
 	zzverif.Register("VerifC12SeqWide", VerifC12SeqWide)
 	zzverif.Register("VerifC12SeqLong", VerifC12SeqLong)
 	zzverif.Register("VerifC12SeqOrder", VerifC12SeqOrder)
@@ -347,7 +348,10 @@ func verifC12Seq(m c12Model, steps int, freeOrderLast bool) {
 	zzverif.Reach("C12.seq.end")
 }
 
-// quick: 4 versions per file, 2 updates
+// quick: 4 versions per file, 1 update
+func VerifC12Seq1() { verifC12Seq(c12Pool(4), 1, false) }
+
+// thorough: 4 versions per file, 2 updates
 func VerifC12Seq() { verifC12Seq(c12Pool(4), 2, false) }
 
 // thorough: 6 versions per file, 2 updates
